@@ -14,6 +14,10 @@ use crate::world::{guarded, Guarded};
 
 #[derive(Default)]
 pub struct OracleState {
+    /// The trust anchor signer is off-line: the proxy/signer
+    /// synchronisation task is taken off the queue whenever it shows up
+    /// (what that task does when the signer is not local: nothing).
+    pub signer_offline: bool,
     pub deleted_cas: BTreeSet<String>,
     pub tasks_run: u64,
     /// Child removals, suspensions and CA deletions so far.
@@ -59,6 +63,9 @@ pub fn pump_stepwise(r: &mut Runner) -> Guarded<bool> {
                 }
                 if r.oracles.c19 {
                     crate::c19::before_step(r);
+                }
+                if r.ext.signer_offline && idx == 0 {
+                    drop_signer_sync_tasks(r);
                 }
                 let claimed = match guarded(|| {
                     r.world.insts[idx].run_scheduler_step()
@@ -186,6 +193,32 @@ pub fn after_task(r: &mut Runner, _inst: usize) {
         crate::c19::observe(r, &format!("after task {task}"));
         crate::c19::entitlements_after_task(r, &task, _inst);
     }
+}
+
+/// While the signer is off-line: removes the pending proxy/signer
+/// synchronisation task of instance 0.
+pub fn drop_signer_sync_tasks(r: &mut Runner) {
+    let inst = r.world.inst(0);
+    let pending: Vec<String> = inst.pending_tasks().into_iter()
+        .filter(|(_, name)| name == "sync_ta_proxy_signer")
+        .map(|(ts, name)| format!("{ts}-{name}")).collect();
+    if pending.is_empty() {
+        return
+    }
+    hooks::with_faults_suspended(|| {
+        let Ok(store) = inst.rt().storage().open(
+            krill::constants::TASK_QUEUE_NS
+        ) else { return };
+        let scope = Ident::make("pending");
+        for key in &pending {
+            if let Ok(key) = Ident::boxed_from_string(key.clone()) {
+                let _ = store.execute(Some(scope), |kv| {
+                    kv.delete(Some(scope), &key)
+                });
+            }
+        }
+    });
+    r.stat("signer_sync_held_back");
 }
 
 /// Instant invariants, evaluated after every API operation.
